@@ -33,7 +33,7 @@ RULE = ('cases: seeded batch_run calls on a self-identifying fixture model: grid
 ASSUMPTIONS = ['a batch_run call that hangs in Pool.terminate() after a failed execution is the known finding F7; any other hang is inconclusive',
                'fault position = n-th model construction (global ordinal claimed through O_EXCL files), which equals the list position for one '
                'process and approximates it for several', 'a hang outside that mechanism is reported as inconclusive by the watchdog, not as a violation']
-FLOORS = {'quick': {'batches': 100, 'executions_checked': 350, 'records_checked': 1500, 'fault_batches': 30, 'faults_propagated': 30,
+FLOORS = {'quick': {'batches': 100, 'executions_checked': 310, 'records_checked': 1200, 'fault_batches': 30, 'faults_propagated': 30,
                     'multi_process_batches': 50, 'reordered_batches': 5, 'serial_order_checks': 10, 'limit_below_completion': 15,
                     'limit_above_completion': 15, 'multi_collector_batches': 20, 'no_collector_batches': 8, 'fault_exc_InjectedKeyError': 10, 'collectors_at_completer_priority': 40, 'parameter_list_with_history': 15, 'procs_1': 20, 'procs_2_4': 20, 'procs_5_8': 8, 'procs_9_16': 8},
           'thorough': {'batches': 3000, 'fault_batches': 1000, 'reordered_batches': 200, 'procs_9_16': 200}}
